@@ -29,6 +29,53 @@ def run(fx, rep, tier):
     rule_set(fx, rep, ex)
     rule_lock(fx, rep, ex)
     rule_noblock(fx, rep, ex, arms)
+    rule_held(fx, rep, ex)
+
+
+# ---- C05-HELD ------------------------------------------------------------------------------
+
+GUARD_TYPES = ("MutexGuard", "StdoutLock", "StderrLock", "StdinLock", "RwLockReadGuard", "RwLockWriteGuard", "ReentrantLockGuard")
+
+
+def rule_held(fx, rep, ex):
+    """The search thread runs for an unbounded time. The only lock it may hold across the search is the persistent-state
+    mutex (which every arm that must not block approaches with try_lock only: C05-NOBLOCK / C13-NOLOCK). Any other guard
+    held across it - in particular the process-wide stdout lock, which every `println!` of the input thread takes - makes
+    the input thread block on its next answer (`readyok`) until the search ends, i.e. forever for `go infinite`."""
+    ok = True
+    n = 0
+    for (sbb, st, cb) in spawned_closures(fx, ex):
+        if cb is None:
+            continue
+        # the long-running calls of the thread: the search itself and anything that reaches it
+        cone_cache = {}
+        long_calls = []
+        for bb, t in cb.calls():
+            cal = fx.body(callee_name(t)) if callee_name(t) else None
+            if cal is not None and (norm(cal.name).endswith("search::search") or fx.one("engine::search::search").name in fx.cone([cal.name])):
+                long_calls.append(bb)
+        for l, loc in enumerate(cb.locals):
+            ty = loc["ty"]
+            if not any(g in ty for g in GUARD_TYPES) or ty.startswith("&") or "Result<" in ty or "Option<" in ty:
+                continue
+            kind = mutex_kind(ty) if "MutexGuard" in ty else ty
+            defs = [d for d in cb.defs().get(l, []) if d[0] in ("call", "stmt")]
+            drops = [i for i in range(cb.n) if cb.blocks[i]["term"]["k"] == "drop" and cb.blocks[i]["term"]["pl"]["l"] == l and not cb.blocks[i].get("cleanup")]
+            for d in defs:
+                live = cb.reachable(d[1], removed_blocks=drops)
+                across = [bb for bb in long_calls if bb in live and bb != d[1]]
+                if not across:
+                    continue
+                n += 1
+                good = kind == "persistent_state"
+                rep.obligation(good)
+                rep.sample({"rule": "C05-HELD", "guard": ty[:80], "held_across_search": True, "allowed": good})
+                if not good:
+                    ok = False
+                    rep.violation("C05-HELD", f"C05-HELD/{kind.split('::')[-1][:40]}", f"the search thread holds `{ty[:80]}` across the search: every use of that lock by the input thread "
+                                  f"({'each println!, e.g. the readyok answer' if 'Stdout' in ty else 'a blocking acquisition'}) waits until the search ends - forever for an unbounded search, and the following stop / quit are never read",
+                                  {"fn": cb.name, "file": cb.file, "line": cb.blocks[across[0]]["term"].get("line")})
+    rep.rule("C05-HELD", n, 1, ok, "guards held across the search in the search thread")
 
 
 # ---- arms ----------------------------------------------------------------------------------
@@ -454,6 +501,8 @@ def rule_noblock(fx, rep, ex, arms, names=("IsReady", "Quit", "Position", "Debug
 
 U = "src/engine/uci/mod.rs"
 MUTANTS = [
+    {"name": "search thread keeps the stdout lock for the whole search (seed C05-3)", "expect": "C05-HELD",
+     "edits": [(U, "                    let mut persistent_state_handle = persistent_state.lock().unwrap();\n", "                    let mut persistent_state_handle = persistent_state.lock().unwrap();\n                    let _stdout = std::io::stdout().lock();\n")]},
     {"name": "ucinewgame keeps the stale stop handle (original defect)", "expect": "C05-TS/wait",
      "edits": [(U, "                self.control = None;\n                self.is_stopped.reset();", "                self.is_stopped.reset();")]},
     {"name": "go resets the latch but stop handle survives a finished search", "expect": "C05-TS/wait",
